@@ -16,6 +16,7 @@ import ZCV.Spec.Logger
 import ZCV.CodecElab
 import ZCV.Model.LoggerSetup
 import ZCV.Model.UrlPath
+import ZCV.Model.Timedelta
 /-! Line-protocol driver: one request per line, one answer per line. Imports Spec + Model + Gen only. -/
 open ZCV ZCV.SExp ZCV.Codec ZCV.Cfg
 
@@ -229,6 +230,13 @@ def handle (st : DState) : SExp → DState × SExp
     (st, .list [.str (UrlPath.quote u), .str (UrlPath.unquote u), .str (UrlPath.pathToUrl u), .str (UrlPath.urlToPath u),
                 .str (UrlPath.join base u), .str (UrlPath.defragUrl u), .str (UrlPath.defragFrag u), .str (UrlPath.zjoin base u),
                 .str (UrlPath.znormalize u), .str (UrlPath.zdefragUrl u), ofBool (UrlPath.joinInDomain base u), ofBool (UrlPath.defragInDomain u)])
+  -- (timedelta "s") → (ok (w d h m s)) with each component none | "float literal"   |  (err ValueError|TypeError)
+  | .list [.atom "timedelta", .str v] =>
+    (st, match DT.timedelta v with
+      | .ok t => .list [.atom "ok", .list [ofOpt .str t.weeks, ofOpt .str t.days, ofOpt .str t.hours, ofOpt .str t.minutes, ofOpt .str t.seconds]]
+      | .error .valueError => .list [.atom "err", .atom "ValueError"]
+      | .error .typeError => .list [.atom "err", .atom "TypeError"]
+      | .error (.other n) => .list [.atom "err", .str n])
   | .list [.atom "ping"] => (st, .atom "pong")
   | _ => (st, .list [.atom "bad-request"])
 
